@@ -97,7 +97,12 @@ def hooks():
             cell = _cell(w, env, a0)
             if cell is None:
                 return None
-            w.write_place(env, cell, lst(v0[1] + (argv[1],)))
+            if len(v0[1]) >= 8 and argv[1] == CW.TOP and all(x == CW.TOP for x in v0[1][-3:]):
+                # widening: a list that keeps growing by unknown elements (a loop over an unknown iterator)
+                # becomes an unknown list, so that the walk reaches a fixed point
+                w.write_place(env, cell, CW.TOP)
+            else:
+                w.write_place(env, cell, lst(v0[1] + (argv[1],)))
             w.mut_handled = True
             return CW.const(0)
         if re.search(r"vec::Vec::<T, A>::(swap_remove|remove)$", nm) and v0[0] == "list" and len(argv) > 1:
